@@ -80,6 +80,9 @@ func valueOfClass(c string, pick int) any {
 		return pickOf([]byte{0, 1, 2, 255}, []byte{}, []byte(strings.Repeat("\x00", 70)), bytes.Repeat([]byte{7}, 23), bytes.Repeat([]byte{7}, 24), bytes.Repeat([]byte{8}, 255),
 			bytes.Repeat([]byte{8}, 256), bytes.Repeat([]byte{9}, 512), bytes.Repeat([]byte{9}, 65536))
 	case "link":
+		if pick%2 == 1 {
+			return aliasCid(missingCid(40), pick/2) // raw / dag-json codec, CIDv0: a link is kept as it is
+		}
 		return missingCid(40 + pick%3)
 	case "list":
 		return pickOf([]any{1, "a", true}, []string{"x", "y"}, []int{}, []float64{0.5, 1.5}, make([]int, 23), make([]int, 24), make([]int, 256), make([]int, 70000))
@@ -159,7 +162,8 @@ func buildToken(c *tokCase, iss *principal, w *world, pick int) (b *built, err e
 		}
 		return nil, false, true
 	}
-	cmd := command.MustParse("/crud/read")
+	// the command is a field like the others: several segments, top, an empty inner segment, multi-byte letters, a blank
+	cmd := command.Command([]string{"/crud/read", "/", "/crud//read", "/é/日本", "/a b", "/crud/read/" + strings.Repeat("x", 300)}[pick%6])
 	switch c.Type {
 	case "dlg":
 		pol, _ := policy.FromDagJson(`[["==", ".x", 1], ["any", ".l", ["like", ".", "a*"]]]`)
